@@ -637,6 +637,33 @@ pub fn op_std_arc(_ctx: Ctx, variant: u8) {
     }
 }
 
+#[inline(never)]
+fn load_in_dead_frame<A: Access<u64>>(a: &A) -> Box<A::Guard> {
+    let pad = [1u64; 8];
+    let g = a.load();
+    std::hint::black_box(&pad);
+    Box::new(g)
+}
+
+#[inline(never)]
+fn dyn_load_in_dead_frame(a: &dyn DynAccess<u64>) -> arc_swap::access::DynGuard<u64> {
+    let pad = [2u64; 8];
+    let g = a.load();
+    std::hint::black_box(&pad);
+    g
+}
+
+/// Overwrites the part of the stack that the callees of the current frame have just used.
+#[inline(never)]
+fn clobber_stack() -> u64 {
+    let mut a = [0u64; 384];
+    for (i, x) in a.iter_mut().enumerate() {
+        *x = 0xDEAD_0000_0000_0000 | i as u64;
+    }
+    std::hint::black_box(&mut a);
+    a[17]
+}
+
 /// Final phase (single-threaded): drop caches and projection guards, and compare static with
 /// dynamic dispatch and check `Constant`.
 pub fn final_drop_extras(ctx: Ctx) {
@@ -683,6 +710,27 @@ pub fn final_drop_extras(ctx: Ctx) {
         std::hint::black_box(&filler);
         if s != 42 || d != 42 || m != 4242 || md != 4242 {
             rt::fail("access", format!("Constant(42) loads {} / {}; Map over Constant(4242) loads {} / {}", s, d, m, md));
+            return;
+        }
+        // "valid anywhere": the guard is loaded in a frame that is gone by the time it is used,
+        // moved to the heap, and the dead frames are overwritten before the projection is read
+        // (a projection guard that remembers an address inside its former self reads the filler)
+        let mk2 = Map::new(Map::new(Constant(777_001u64), p_ident as fn(&u64) -> &u64), p_ident as fn(&u64) -> &u64);
+        let b1 = load_in_dead_frame(&mk);
+        let b2 = load_in_dead_frame(&mk2);
+        let b3 = dyn_load_in_dead_frame(&mk);
+        let b4 = dyn_load_in_dead_frame(&mk2);
+        let fill = clobber_stack();
+        let (v1, v2, v3, v4) = (**b1, **b2, *b3, *b4);
+        w(|w| bump(w, "acc_guard_read_after_frame_death"));
+        if v1 != 4242 || v2 != 777_001 || v3 != 4242 || v4 != 777_001 || fill == 0 {
+            rt::fail(
+                "access",
+                format!(
+                    "projection guards moved out of the frame that loaded them read {:#x} / {:#x} (static), {:#x} / {:#x} (dyn) instead of 4242 / 777001",
+                    v1, v2, v3, v4
+                ),
+            );
             return;
         }
     }
